@@ -49,7 +49,7 @@ class ScaleBias(Contract):
                 for b in BIASES:
                     if s == 1 and b == 0:
                         continue
-                    for route in ('ctor', 'call', 'setitem') + (('ctor_int',) if s in (Fraction(1), Fraction(2), Fraction(1, 2)) else ()):
+                    for route in ('ctor', 'call', 'setitem', 'getitem') + (('ctor_int',) if s in (Fraction(1), Fraction(2), Fraction(1, 2)) else ()):
                         k += 1
                         modes = [MODES[k % len(MODES)]] if tier == 'quick' else MODES[::3]
                         for rule, mode in modes:
@@ -57,12 +57,35 @@ class ScaleBias(Contract):
         for s, b in [(Fraction(3), Fraction(1)), (Fraction(1, 2), Fraction(-1, 2)), (Fraction(-3, 2), Fraction(0))]:
             for signed in (True, False):
                 yield dict(fmt=None, scale=[s.numerator, s.denominator], bias=[b.numerator, b.denominator], route='infer', rule='trunc', mode='saturate', signed=signed)
+        # storing through narrow / unsigned / low-precision carriers: (v-b)/s must not be computed in the carrier's own arithmetic
+        k = 0
+        for fmt in ([(True, 16, 4), (False, 12, 1), (True, 8, 0)] if tier == 'quick' else [(True, 16, 4), (False, 12, 1), (True, 8, 0), (True, 24, 8), (False, 8, 3)]):
+            for s, b in [(Fraction(2), Fraction(1)), (Fraction(1), Fraction(5)), (Fraction(1), Fraction(-100)), (Fraction(1, 2), Fraction(1, 4)), (Fraction(2), Fraction(0)), (Fraction(1), Fraction(1, 2))]:
+                for carrier in ('arr:uint8', 'np:uint8', 'arr:int8', 'np:int16', 'arr:uint16', 'arr:uint32', 'arr:int32', 'arr:uint64', 'np:uint64', 'arr:int64',
+                                'arr:float16', 'np:float16', 'arr:float32', 'np:float32'):
+                    k += 1
+                    rule, mode = MODES[k % len(MODES)]
+                    yield dict(fmt=list(fmt), scale=[s.numerator, s.denominator], bias=[b.numerator, b.denominator], route='ctor_carrier', rule=rule, mode=mode, carrier=carrier)
+        # size inference from integer-typed carriers: the *transformed* value (v-b)/s is what gets sized
+        for s, b in [(Fraction(2), Fraction(0)), (Fraction(2), Fraction(1)), (Fraction(1), Fraction(1, 2)), (Fraction(4), Fraction(-1, 2)), (Fraction(1, 2), Fraction(9, 4))]:
+            for carrier in ('pyint', 'arr:uint8', 'arr:int64', 'np:int32'):
+                yield dict(fmt=None, scale=[s.numerator, s.denominator], bias=[b.numerator, b.denominator], route='infer_int', rule='trunc', mode='saturate',
+                           signed=None if carrier != 'arr:uint8' else True, carrier=carrier)
 
     def inputs(self, cfg, D):
         lim = 2**14 if cfg['fmt'] is not None else 2**9
         lo = -lim if (cfg['fmt'] is not None or cfg.get('signed')) else 0
         if cfg['route'] == 'ctor_int':
             return {'vi': D.int('vi', -2**12, 2**12)}       # an integer-typed input value
+        if cfg['route'] == 'ctor_carrier':
+            from contracts.l3_fxp import carrier_inputs
+            sg, n, f = cfg['fmt']
+            vc = carrier_inputs(D, cfg['carrier'], [1] if cfg['carrier'].startswith('arr:') else [], f, sg, n)
+            for v in vc:
+                D.assume(And(M(v) < 2**40, M(v) > -2**40))      # core domain: v - b and (v - b)/s are exact in float64
+            return {'vc': vc}
+        if cfg['route'] == 'infer_int':
+            return {'vi': D.int('vi', 0 if cfg['carrier'] == 'arr:uint8' else -2**9, 255 if cfg['carrier'] == 'arr:uint8' else 2**9)}
         return {'m': D.int('m', lo, lim), 'm2': D.int('m2', -lim, lim)}
 
     def run(self, cfg, P, inp):
@@ -73,6 +96,21 @@ class ScaleBias(Contract):
         if route == 'ctor_int':
             sg, n, f = cfg['fmt']
             x = P.Fxp(inp['vi'], sg, n, f, rounding=cfg['rule'], overflow=cfg['mode'], scale=sf, bias=bf)
+            o = obs_fxp(x)
+            o['getval'] = x.get_val()
+            return o
+        if route == 'ctor_carrier':
+            from contracts.l3_fxp import build_carrier
+            sg, n, f = cfg['fmt']
+            car = build_carrier(P, cfg['carrier'], inp['vc'], [1] if cfg['carrier'].startswith('arr:') else [])
+            x = P.Fxp(car, sg, n, f, rounding=cfg['rule'], overflow=cfg['mode'], scale=sf, bias=bf)
+            o = obs_fxp(x)
+            o['getval'] = x.get_val()
+            return o
+        if route == 'infer_int':
+            from contracts.l3_fxp import build_carrier
+            car = build_carrier(P, cfg['carrier'], [inp['vi']], [1] if cfg['carrier'].startswith('arr:') else [])
+            x = P.Fxp(car, cfg['signed'], scale=sf, bias=bf)
             o = obs_fxp(x)
             o['getval'] = x.get_val()
             return o
@@ -88,6 +126,14 @@ class ScaleBias(Contract):
                 x = P.Fxp(affine_input(P, inp['m2'], s, b), sg, n, f, **kw)
                 x.reset()
                 x(v)
+            elif route == 'getitem':
+                x = P.Fxp([affine_input(P, inp['m2'], s, b), v], sg, n, f, **kw)
+                y = x[1]; ys = x[0:2]
+                o = obs_fxp(x)
+                o['getval'] = x.get_val()
+                o['item'] = {'getval': y.get_val(), 'call': y(), 'slice': ys.get_val(), 'upper': y.upper, 'lower': y.lower, 'precision': y.precision,
+                             'scaled': y.scaled, 'code': y.val, 'scale': y.scale, 'bias': y.bias}
+                return o
             else:
                 x = P.Fxp([affine_input(P, inp['m2'], s, b), affine_input(P, inp['m2'], s, b)], sg, n, f, **kw)
                 x.reset()
@@ -100,7 +146,9 @@ class ScaleBias(Contract):
         if obs['exc']:
             return {}
         s = Fraction(*cfg['scale']); b = Fraction(*cfg['bias'])
-        if cfg['route'] == 'ctor_int':
+        if cfg['route'] == 'ctor_carrier':
+            w = (M(inp['vc'][0]) - b) * (1 / s)          # exact: s is a power of two here
+        elif cfg['route'] in ('ctor_int', 'infer_int'):
             w = (M(inp['vi']) - b) * (1 / s)             # exact: s is a power of two here
         else:
             w = scale2(M(inp['m']), -G)
@@ -114,7 +162,7 @@ class ScaleBias(Contract):
                'limits': And(eq(M(obs['upper']), s * scale2(hi, -F) + b), eq(M(obs['lower']), s * scale2(lo, -F) + b),
                              eq(M(obs['precision']), s * pow2(-F)))}
         st = obs['status']
-        if cfg['route'] == 'infer':
+        if cfg['route'] in ('infer', 'infer_int'):
             out['infer_exact'] = And(eq(scale2(z, -F), w), Not(B(st['overflow'])), Not(B(st['underflow'])), Not(B(st['inaccuracy'])))
             out['infer_minimal_frac'] = Or(F == 0, Not(is_int(scale2(w, F - 1)))) if isinstance(F, int) and F > 0 else True
             return out
@@ -122,9 +170,27 @@ class ScaleBias(Contract):
         R = ROUND(scale2(w, f), cfg['rule'])
         out['format'] = And(S == sg, W == n, F == f)
         out['code_eq_Q'] = eq(z, OVF(R, sg, n, cfg['mode']))
-        out['flag_overflow'] = Iff(B(st['overflow']), R > hi)
-        out['flag_underflow'] = Iff(B(st['underflow']), R < lo)
-        out['flag_inaccuracy'] = Iff(B(st['inaccuracy']), Not(eq(scale2(z, -f), w)))
+        if cfg['route'] == 'getitem':
+            # the parent array was built from [w2, w]: its flags are the disjunction over both elements
+            w2 = scale2(M(inp['m2']), -G)
+            R2 = ROUND(scale2(w2, f), cfg['rule'])
+            out['code_eq_Q[0]'] = eq(codes[0], OVF(R2, sg, n, cfg['mode']))
+            out['flag_overflow'] = Iff(B(st['overflow']), Or(R > hi, R2 > hi))
+            out['flag_underflow'] = Iff(B(st['underflow']), Or(R < lo, R2 < lo))
+            out['flag_inaccuracy'] = Iff(B(st['inaccuracy']), Or(Not(eq(scale2(z, -f), w)), Not(eq(scale2(codes[0], -f), w2))))
+        else:
+            out['flag_overflow'] = Iff(B(st['overflow']), R > hi)
+            out['flag_underflow'] = Iff(B(st['underflow']), R < lo)
+            out['flag_inaccuracy'] = Iff(B(st['inaccuracy']), Not(eq(scale2(z, -f), w)))
+        if cfg['route'] == 'getitem':
+            it = obs['item']
+            ci = M(elems(it['code'])[0])
+            want = s * scale2(ci, -F) + b
+            out['item_is_view_of_code'] = eq(ci, codes[1])
+            out['item_readback'] = And(eq(M(elems(it['getval'])[0]), want), eq(M(elems(it['call'])[0]), want),
+                                       *[eq(M(g), s * scale2(c, -F) + b) for g, c in zip(elems(it['slice']), codes)])
+            out['item_limits'] = And(it['scaled'] is True, eq(M(it['upper']), M(obs['upper'])), eq(M(it['lower']), M(obs['lower'])),
+                                     eq(M(it['precision']), M(obs['precision'])), eq(M(it['scale']), s), eq(M(it['bias']), b))
         if cfg['route'] == 'setitem':
             w2 = scale2(M(inp['m2']), -G)
             out['other_unchanged'] = eq(codes[0], Q(w2, sg, n, f, cfg['rule'], cfg['mode']))
